@@ -138,6 +138,10 @@ func updateAnchoredOperation(op *operation.AnchoredOperation, sidetreeTxn *txn.S
 	// The genesis time of the protocol that was used for this operation
 	op.ProtocolVersion = sidetreeTxn.ProtocolVersion
 
+	// The canonical and equivalent references of the transaction this operation was anchored in
+	op.CanonicalReference = sidetreeTxn.CanonicalReference
+	op.EquivalentReferences = sidetreeTxn.EquivalentReferences
+
 	return op
 }
 
